@@ -11,6 +11,7 @@ Shape of the check (see notes/C18.md):
 """
 import math
 import os
+import re
 import time
 from concurrent.futures import ThreadPoolExecutor
 from decimal import Decimal as D, getcontext
@@ -35,9 +36,12 @@ TRUSTED = [
     'harness-side float arithmetic in the direct behavioural checks (tolerances stated in notes/C18.md)',
 ]
 ASSUMPTIONS = [
-    'accuracy statement: |gcirc - exact| <= 1e-6*|gcirc| + 1e-9 arcsec (4.85e-15 rad for units=0); the absolute floor is the '
-    'granularity of double-precision coordinates in degrees (ulp(360 deg) = 2e-10 arcsec). Below ~1e-7 deg the degree/hour '
-    'conventions lose relative accuracy (deg2rad is applied before differencing): measured per decade in coverage.gcirc_max_rel_err',
+    'accuracy statement, taken literally: |gcirc - exact| <= 1e-6*|gcirc| from 1 micro-arcsecond (2.8e-10 deg) to 180 deg in all three '
+    'conventions; the only absolute floor is 1e-13 arcsec (4.85e-19 rad for units=0), for exact zeros. "exact" is the great-circle '
+    'distance of the points whose coordinates are exactly the doubles passed in',
+    'not generated below 1e-6 deg separation, because no evaluation in doubles of the degree/hour coordinates can reach 1e-6 relative '
+    'there: (a) a point at exactly +-90 deg (deg2rad(90) is 6.1e-17 rad short of pi/2: absolute error up to 2.5e-11 arcsec; near-pole '
+    'points 90 - 2^-k deg are used instead), (b) right ascensions differing by a full turn (sin of pi + x loses x below 1e-16 rad)',
     'frame round trips / isometry are decided with tolerance 1e-6 rad (1e-6 relative on separations, floor 5e-8 rad): arcsin near '
     '+-1 limits what doubles can return at the poles of either system',
     'node is the frame default (95 deg); radec_to_munu does not propagate a non-default node (outside the property)',
@@ -125,37 +129,48 @@ HEADER = ('From Coq Require Import Reals ZArith Lra Lia.\nFrom Interval Require 
 
 
 def run_lemmas(ctx, lemmas, tag, nshards=None):
-    """lemmas: list of Coq texts (each a complete `Lemma ... Qed.`).  Returns list of bool (proved)."""
+    """lemmas: list of Coq texts (each a complete `Lemma ... Qed.`).  Returns (list of bool (proved), seconds).
+    coqc stops at the first error of a file: the failing lemma is found from the reported line, marked, and the
+    lemmas after it are run again (those before it were already checked)."""
     if not lemmas:
         return [], 0.0
     nshards = nshards or min(C.NPROC, max(1, len(lemmas) // 4))
     groups = [list(range(k, len(lemmas), nshards)) for k in range(nshards)]
     groups = [g for g in groups if g]
-
-    def write(name, idxs):
-        p = os.path.join(ctx.work, name + '.v')
-        with open(p, 'w') as f:
-            f.write(HEADER + '\n'.join(lemmas[i] for i in idxs) + '\n')
-        return p
-    t0 = time.time()
-    files = [write('%s_%03d' % (tag, k), g) for k, g in enumerate(groups)]
-    with ThreadPoolExecutor(max_workers=C.NPROC) as ex:
-        outs = list(ex.map(lambda p: C.coqc_file(p, 900), files))
+    nhead = HEADER.count('\n')
     ok = [True] * len(lemmas)
-    retry = []
-    for (rc, out), g in zip(outs, groups):
-        if rc != 0:
-            if len(g) == 1:
-                ok[g[0]] = False
-            else:
-                retry += g
-    if retry:
-        files = [write('%s_r%04d' % (tag, i), [i]) for i in retry]
+    t0 = time.time()
+    rnd = 0
+    while groups:
+        files, starts = [], []
+        for k, g in enumerate(groups):
+            p = os.path.join(ctx.work, '%s_%02d_%03d.v' % (tag, rnd, k))
+            line = nhead + 1
+            st = []
+            with open(p, 'w') as f:
+                f.write(HEADER)
+                for i in g:
+                    st.append(line)
+                    f.write(lemmas[i] + '\n')
+                    line += lemmas[i].count('\n') + 1
+            files.append(p)
+            starts.append(st)
         with ThreadPoolExecutor(max_workers=C.NPROC) as ex:
-            outs = list(ex.map(lambda p: C.coqc_file(p, 300), files))
-        for (rc, out), i in zip(outs, retry):
-            if rc != 0:
-                ok[i] = False
+            outs = list(ex.map(lambda p: C.coqc_file(p, 900), files))
+        nxt = []
+        for (rc, out), g, st in zip(outs, groups, starts):
+            if rc == 0:
+                continue
+            m = re.search(r'line (\d+), characters', out)
+            j = 0
+            if m:
+                ln = int(m.group(1))
+                j = max(k for k in range(len(g)) if st[k] <= ln) if ln >= st[0] else 0
+            ok[g[j]] = False
+            if g[j + 1:]:
+                nxt.append(g[j + 1:])
+        groups = nxt
+        rnd += 1
     return ok, time.time() - t0
 
 
@@ -232,8 +247,12 @@ def incl_doc(stripe):
 # gcirc
 # ----------------------------------------------------------------------------
 
-SEPS = [1e-9, 1e-8, 1e-7, 1e-6, 1e-5, 1e-4, 1e-3, 1e-2, 1e-1, 1.0, 10.0, 100.0, 179.0, 180 - 1e-3, 180 - 1e-6]
-FLOOR = {0: F(485, 10 ** 17), 1: F(1, 10 ** 9), 2: F(1, 10 ** 9)}   # 1e-9 arcsec
+# separations in degrees: 1 micro-arcsecond (2.8e-10 deg) ... antipodal
+SEPS = [2.8e-10, 1e-9, 1e-8, 1e-7, 1e-6, 1e-5, 1e-4, 1e-3, 1e-2, 1e-1, 1.0, 10.0, 100.0, 179.0, 180 - 1e-3, 180 - 1e-6]
+# the accuracy statement is purely relative (1e-6); the floor only serves exact zeros and is negligible at 1 micro-arcsecond:
+# 1e-13 arcsec (units 1, 2) = 4.85e-19 rad (units 0)
+FLOOR = {0: F(485, 10 ** 21), 1: F(1, 10 ** 13), 2: F(1, 10 ** 13)}
+SMALL_SEP = 1e-6     # below this: no RA wrap by 360 deg, no point exactly at a pole (see ASSUMPTIONS)
 TOP = {0: math.pi, 1: 648000.0, 2: 648000.0}
 
 
@@ -255,16 +274,20 @@ def gen_gcirc(ctx):
         # quick tier: every separation with a generic pair, poles and equator alternate; thorough: all three
         classes = ('generic', 'polar', 'equator') if ctx.thorough else ('generic', ('polar', 'equator')[(si + ctx.seed) % 2])
         for cls in classes:
-            for _ in range(reps):
+            for _ in range(reps * (3 if sep <= 1e-8 else 1)):
                 if cls == 'generic':
                     ra, dec = C.dyadic(rng, 0, 360, 8), C.dyadic(rng, -80, 80, 8)
                 elif cls == 'polar':
-                    ra, dec = C.dyadic(rng, 0, 360, 4), rng.choice([90.0, -90.0])
+                    if sep >= SMALL_SEP:
+                        ra, dec = C.dyadic(rng, 0, 360, 4), rng.choice([90.0, -90.0])
+                    else:
+                        # deg2rad(90) is not pi/2: at the exact pole the degree conventions cannot do better than 2.5e-11 arcsec
+                        ra, dec = C.dyadic(rng, 0, 360, 4), rng.choice([1.0, -1.0]) * (90.0 - 2.0 ** -rng.randint(8, 14))
                 else:
                     ra, dec = C.dyadic(rng, 0, 360, 8), rng.choice([0.0, 0.0, C.dyadic(rng, -1, 1, 10)])
                 pa = rng.uniform(0, 2 * math.pi)
                 ra2, dec2 = destination(ra, dec, pa, sep)
-                if rng.random() < 0.3:
+                if sep >= SMALL_SEP and rng.random() < 0.3:
                     ra2 += rng.choice([360.0, -360.0])    # RA wrap must not matter
                 base = [ra, dec, ra2, dec2]
                 for units in (0, 1, 2):
@@ -411,6 +434,8 @@ def check_gcirc(ctx, have_spec):
         ref = vals.get(2, next(iter(vals.values())))
         for u, v in vals.items():
             # near-antipodal pairs: a one-ulp change of an input (ra/15, deg2rad) moves the result by ~sqrt(eps)
+            # the three input tuples are conversions of one another (ra/15, deg2rad), i.e. they differ by up to an ulp of each
+            # coordinate (2e-10 arcsec); accuracy proper is decided per convention by the enclosures
             floor = 1e-9 if d[u][1]['sep'] < 179.5 else 2e-2
             if abs(v - ref) > 1e-6 * abs(ref) + floor:
                 ctx.violation('C18:gcirc:units-disagree', 'units=%d gives %r arcsec, units=2 gives %r arcsec for the same pair' % (u, v, ref),
@@ -433,7 +458,11 @@ def check_gcirc(ctx, have_spec):
                 c = cases[i]
                 encl_fail += 1
                 ref = hp_gcirc(c['units'], *c['pts'])
-                sig = 'C18:gcirc:enclosure:units=%d:%s' % (c['units'], 'property' if certified else 'unproved')
+                if certified and c['units'] in (1, 2) and c['sep'] < SMALL_SEP:
+                    # one defect, both conventions: relative accuracy lost below ~1e-7 deg in the degree/hour conventions
+                    sig = 'C18:gcirc:accuracy:small-separation:degree-hour-conventions'
+                else:
+                    sig = 'C18:gcirc:enclosure:units=%d:%s' % (c['units'], 'property' if certified else 'unproved')
                 if sig in seen:
                     continue
                 seen.add(sig)
@@ -442,8 +471,10 @@ def check_gcirc(ctx, have_spec):
                 if certified:
                     rep['kind'] = 'failing-input'
                     rep['certified'] = 'Coq/Interval proved |S(input) - gcirc| > tol'
+                    rep['relative_error'] = float(abs(D(fwd[i]) - ref) / ref) if ref > 0 else None
                     ctx.violation(sig, 'gcirc differs from the exact great-circle distance by more than 1e-6 relative '
-                                  '(%r vs %s, units=%d)' % (fwd[i], str(ref)[:22], c['units']), rep, True)
+                                  '(%r vs %s, relative error %.2e, units=%d, separation ~%g deg)'
+                                  % (fwd[i], str(ref)[:22], rep['relative_error'] or 0.0, c['units'], c['sep']), rep, True)
                 else:
                     rep['kind'] = 'broken-correspondence'
                     rep['item'] = 'enclosure |gcirc_S - impl| <= tol could be neither proved nor refuted'
